@@ -286,7 +286,10 @@ pub fn run_seeds<H: HB>(out: &mut Outcome, label: &str, cfg: &Cfg, seeds: Vec<Ro
             roots.push((d, s.clone()));
         }
     }
+    // the large-reservation twin belongs to the closed small-scope runs
+    LARGE_TWIN.store(false, AO::Relaxed);
     ex.run(roots, Some(depth));
+    LARGE_TWIN.store(true, AO::Relaxed);
     out.absorb(label, &ex, t0);
 }
 
